@@ -11,10 +11,13 @@ package main
 //   ["man", [body…], fin, must]           tx := h.Begin(); …body…; fin 0 = tx.Commit() 1 = tx.Rollback()   (well-behaved caller, see runMan)
 //   ["sp", name, must]                    h.SavePoint("m<name>")
 //   ["rb", name, must]                    h.RollbackTo("m<name>")
+//   ["dv", kind, arg, [body…], must]      h2 := <derive kind>(h); …body… on h2   (kind = "<class>:<Go derivation>", see c04Derive;
+//                                         h itself is not touched; classes: keep prep newdb skiptx disnested chain where initialized debug)
 // must=true : an error of the child makes the enclosing function return that error at once; a panic propagates.
 // must=false: the enclosing function ignores the child's error and recovers the child's panic, then continues.
 
 import (
+	"context"
 	"database/sql"
 	"encoding/json"
 	"errors"
@@ -48,6 +51,7 @@ type c04Cfg struct {
 	Prep bool `json:"prep"` // PrepareStmt
 	Dis  bool `json:"dis"`  // DisableNestedTransaction
 	Skip bool `json:"skip"` // SkipDefaultTransaction
+	Wrap bool `json:"wrap"` // custom ConnPool (ConnPoolBeginner) whose transaction type is not *sql.Tx (c04_conn.go)
 }
 
 func (c c04Cfg) String() string {
@@ -57,13 +61,13 @@ func (c c04Cfg) String() string {
 		}
 		return "0"
 	}
-	return "prep" + b(c.Prep) + "dis" + b(c.Dis) + "skip" + b(c.Skip)
+	return "prep" + b(c.Prep) + "dis" + b(c.Dis) + "skip" + b(c.Skip) + "wrap" + b(c.Wrap)
 }
 
 func c04Cfgs() []c04Cfg {
 	var out []c04Cfg
-	for i := 0; i < 8; i++ {
-		out = append(out, c04Cfg{Prep: i&1 != 0, Dis: i&2 != 0, Skip: i&4 != 0})
+	for i := 0; i < 16; i++ {
+		out = append(out, c04Cfg{Prep: i&1 != 0, Dis: i&2 != 0, Skip: i&4 != 0, Wrap: i&8 != 0})
 	}
 	return out
 }
@@ -73,16 +77,22 @@ type c04World struct {
 	db    *gorm.DB
 	rec   *Recorder
 	sqlDB *sql.DB
+	tags  *c04Tags
 }
 
 func c04Open(cfg c04Cfg) *c04World {
 	n := atomicAddMem()
 	dsn := fmt.Sprintf("file:verifc04mem%d?mode=memory&cache=shared", n)
 	rec := &Recorder{}
-	sqlDB := sql.OpenDB(&recConnector{dsn: dsn, drv: &sqlite3.SQLiteDriver{}, rec: rec})
+	tags := &c04Tags{}
+	sqlDB := sql.OpenDB(&c04Connector{inner: &recConnector{dsn: dsn, drv: &sqlite3.SQLiteDriver{}, rec: rec}, tags: tags})
 	sqlDB.SetMaxIdleConns(4)
 	rec.Off = true
-	db, err := gorm.Open(spDialector{sqlite.Dialector{Conn: sqlDB}}, &gorm.Config{
+	var pool gorm.ConnPool = sqlDB
+	if cfg.Wrap {
+		pool = &c04Pool{db: sqlDB}
+	}
+	db, err := gorm.Open(spDialector{sqlite.Dialector{Conn: pool}}, &gorm.Config{
 		Logger: logger.Discard, PrepareStmt: cfg.Prep, DisableNestedTransaction: cfg.Dis, SkipDefaultTransaction: cfg.Skip,
 	})
 	if err != nil {
@@ -92,29 +102,42 @@ func c04Open(cfg c04Cfg) *c04World {
 		panic(err)
 	}
 	rec.Off = false
-	return &c04World{cfg: cfg, db: db, rec: rec, sqlDB: sqlDB}
+	return &c04World{cfg: cfg, db: db, rec: rec, sqlDB: sqlDB, tags: tags}
 }
 
 func (w *c04World) close() { w.sqlDB.Close() }
 
-// reset empties the table (not recorded)
+// reset empties the table (not recorded). A previous run that left the database unusable (a lock held by a statement that
+// escaped its transaction, …) must not take the whole check down: the world is replaced by a fresh one.
 func (w *c04World) reset(initial []int64) {
+	if err := w.tryReset(initial); err != nil {
+		w.sqlDB.Close()
+		*w = *c04Open(w.cfg)
+		if err := w.tryReset(initial); err != nil {
+			panic(err)
+		}
+	}
+}
+
+func (w *c04World) tryReset(initial []int64) error {
 	w.rec.mu.Lock()
 	w.rec.Off = true
 	w.rec.Fault = nil
 	w.rec.mu.Unlock()
 	if _, err := w.sqlDB.Exec("DELETE FROM tx_items"); err != nil {
-		panic(err)
+		return err
 	}
 	for _, id := range initial {
 		if _, err := w.sqlDB.Exec("INSERT INTO tx_items (id, v) VALUES (?, 0)", id); err != nil {
-			panic(err)
+			return err
 		}
 	}
 	w.rec.mu.Lock()
 	w.rec.Off = false
 	w.rec.Events = nil
 	w.rec.mu.Unlock()
+	w.tags.resetCount()
+	return nil
 }
 
 func (w *c04World) dump() []int64 {
@@ -147,7 +170,8 @@ func atomicAddMem() int64 {
 
 type c04Node struct {
 	K    string
-	ID   int64 // w/d id, sp/rb name, blk tag
+	Kind string // dv: "<class>:<derivation>"
+	ID   int64  // w/d id, sp/rb name, blk tag, dv argument
 	Body []*c04Node
 	Out  int // blk: 0 nil 1 err 2 panic; man: 0 commit 1 rollback
 	Must bool
@@ -163,6 +187,8 @@ func (n *c04Node) enc() []interface{} {
 		return []interface{}{n.K, c04EncBody(n.Body), n.Out, n.ID, n.Must}
 	case "man":
 		return []interface{}{n.K, c04EncBody(n.Body), n.Out, n.Must}
+	case "dv":
+		return []interface{}{n.K, n.Kind, n.ID, c04EncBody(n.Body), n.Must}
 	}
 	panic("bad node " + n.K)
 }
@@ -188,6 +214,22 @@ func c04Dec(raw []interface{}) (*c04Node, error) {
 		n.ID, n.Must = num(1), bl(2)
 	case "q":
 		n.Must = bl(1)
+	case "dv":
+		if len(raw) < 5 {
+			return nil, errors.New("short dv node")
+		}
+		n.Kind, _ = raw[1].(string)
+		n.ID = num(2)
+		arr, _ := raw[3].([]interface{})
+		for _, c := range arr {
+			ca, _ := c.([]interface{})
+			cn, err := c04Dec(ca)
+			if err != nil {
+				return nil, err
+			}
+			n.Body = append(n.Body, cn)
+		}
+		n.Must = bl(4)
 	case "blk", "man":
 		arr, _ := raw[1].([]interface{})
 		for _, c := range arr {
@@ -266,6 +308,12 @@ type c04Exec struct {
 	ref      c04Ref   // reference of the PROPERTY, advanced from the observed results of the primitive operations
 	verdicts []string // property violations seen by the end-to-end oracle
 	nFaulted int
+	txof     []int   // per logical driver call: ordinal of the driver transaction it ran in (0 = outside any)
+	txOrd    int     // ordinal of the driver transaction of the block / manual sequence being executed (0 = none)
+	opInTx   bool    // the operation being executed was issued through a handle that belongs to that transaction
+	escaped  bool    // (verdict already given)
+	conds    []int64 // chained `id <> ?` conditions carried by the handle lineage being used
+	disL     bool    // Session{DisableNestedTransaction: true} was applied in the handle lineage being used
 }
 
 func c04Tok(ev *Event) string {
@@ -300,6 +348,19 @@ func (x *c04Exec) fault(idx int, ev *Event) error {
 	}
 	k := x.calls
 	x.calls++
+	_, ord := x.w.tags.tag()
+	x.txof = append(x.txof, ord)
+	// the PROPERTY, observed where it is decided: a write / save-point statement issued through the transaction's handle or
+	// through any handle derived from it must arrive on the transaction's connection, inside its driver transaction —
+	// otherwise the block's rollback cannot undo it and its commit does not cover it
+	if x.opInTx && x.txOrd > 0 && ord != x.txOrd && (t == "W" || t == "S" || t == "T") && !x.escaped {
+		x.escaped = true
+		where := "on a pool connection outside any driver transaction"
+		if ord != 0 {
+			where = fmt.Sprintf("inside another driver transaction (#%d)", ord)
+		}
+		x.verdict("call %d (%s %q) was issued through a handle of transaction #%d but ran %s: it escapes the block's commit/rollback", k, t, ev.SQL, x.txOrd, where)
+	}
 	hit := x.mask[k] && t != "R" && (t != "T" || x.allowRb)
 	if hit {
 		x.trace = append(x.trace, t+"!")
@@ -362,16 +423,24 @@ func (x *c04Exec) guarded(h *gorm.DB, inTx bool, path string, n *c04Node) (err e
 
 func (x *c04Exec) child(h *gorm.DB, inTx bool, path string, n *c04Node) error {
 	f0 := x.nFaulted
+	x.opInTx = inTx
 	switch n.K {
+	case "dv":
+		return x.runDv(h, inTx, path, n)
 	case "w", "d":
 		x.use(h)
 		var err error
+		done := true
 		if n.K == "w" {
 			err = h.Create(&TxItem{ID: n.ID}).Error
 		} else {
-			err = h.Delete(&TxItem{}, n.ID).Error
+			res := h.Delete(&TxItem{}, n.ID)
+			err = res.Error
+			// the reference is advanced from the observed result of the operation: a DELETE that reports 0 rows (missing
+			// key, or a key excluded by the handle's own chained conditions) removed nothing
+			done = res.RowsAffected > 0
 		}
-		x.ref.write(inTx, n.K == "w", n.ID, err == nil)
+		x.ref.write(inTx, n.K == "w", n.ID, err == nil && done)
 		x.expectNilUnlessFaulted(path, n.K, err, f0)
 		return err
 	case "q":
@@ -387,8 +456,30 @@ func (x *c04Exec) child(h *gorm.DB, inTx bool, path string, n *c04Node) error {
 			ids = append(ids, it.ID)
 		}
 		x.reads = append(x.reads, ids)
-		if want := x.ref.view(inTx); canon(want) != canon(ids) {
-			x.verdict("%s: read inside the program sees %v, the property's reference store is %v", path, ids, want)
+		// latitude: the property does not say whether conditions chained BEFORE Transaction/Begin/Session are carried by
+		// the handles derived from it — both the filtered and the unfiltered view are accepted (the tie pins which one)
+		// (Session{NewDB} only hides them until the next plain Session): every row of the reference must be seen except,
+		// possibly, rows excluded by a condition chained somewhere in the handle's lineage; nothing else may be seen
+		want := x.ref.view(inTx)
+		okRead := true
+		seen := map[int64]bool{}
+		for _, id := range ids {
+			seen[id] = true
+		}
+		inWant := map[int64]bool{}
+		for _, id := range want {
+			inWant[id] = true
+			if !seen[id] && !c04Has(x.conds, id) {
+				okRead = false
+			}
+		}
+		for _, id := range ids {
+			if !inWant[id] {
+				okRead = false
+			}
+		}
+		if !okRead {
+			x.verdict("%s: read inside the program sees %v, the property's reference store is %v (chained conditions: id not in %v)", path, ids, want, x.conds)
 		}
 		return nil
 	case "sp":
@@ -457,6 +548,7 @@ func (x *c04Exec) runBlk(h *gorm.DB, inTx bool, path string, n *c04Node) (ret er
 	obs := &c04BlockObs{Path: path}
 	x.blocks = append(x.blocks, obs)
 	nested := inTx
+	dis := x.w.cfg.Dis || x.disL // Open-time configuration, or Session{DisableNestedTransaction: true} on the way to this handle
 	var mark int
 	fnEndTrace := -1
 	// judge on the way out (normal return or panic)
@@ -468,7 +560,11 @@ func (x *c04Exec) runBlk(h *gorm.DB, inTx bool, path string, n *c04Node) (ret er
 			obs.Panicked, obs.Payload = true, r
 		}
 		obs.Ret = ret
-		x.judgeBlk(path, nested, obs, mark, fnEndTrace, f0)
+		if !nested {
+			x.txOrd = 0
+		}
+		x.opInTx = inTx
+		x.judgeBlk(path, nested, dis, obs, mark, fnEndTrace, f0)
 		if !done {
 			panic(r)
 		}
@@ -477,9 +573,12 @@ func (x *c04Exec) runBlk(h *gorm.DB, inTx bool, path string, n *c04Node) (ret er
 		obs.FnRan = true
 		obs.FnRet = "panic"
 		if nested {
-			mark = x.ref.enterNested(x.w.cfg.Dis)
+			mark = x.ref.enterNested(dis)
 		} else {
 			x.ref.begin()
+			x.w.tags.mu.Lock()
+			x.txOrd = x.w.tags.nBegun
+			x.w.tags.mu.Unlock()
 		}
 		defer func() {
 			fnEndTrace = len(x.trace)
@@ -519,7 +618,7 @@ func (x *c04Exec) runBlk(h *gorm.DB, inTx bool, path string, n *c04Node) (ret er
 //   function panicked      → nothing of the block kept, Transaction panics with the SAME payload
 //   function not run       → BEGIN / SAVEPOINT failed: Transaction returns an error, nothing changes
 // "nothing kept" for a nested block under DisableNestedTransaction means: it undoes nothing by itself.
-func (x *c04Exec) judgeBlk(path string, nested bool, obs *c04BlockObs, mark, fnEnd, f0 int) {
+func (x *c04Exec) judgeBlk(path string, nested, dis bool, obs *c04BlockObs, mark, fnEnd, f0 int) {
 	if !obs.FnRan {
 		if obs.Panicked {
 			x.verdict("%s: Transaction panicked (%v) before running the function", path, obs.Payload)
@@ -564,7 +663,7 @@ func (x *c04Exec) judgeBlk(path string, nested bool, obs *c04BlockObs, mark, fnE
 		}
 	}
 	if nested {
-		x.ref.leaveNested(mark, keep, x.w.cfg.Dis)
+		x.ref.leaveNested(mark, keep, dis)
 	} else {
 		x.ref.end(keep)
 	}
@@ -589,6 +688,10 @@ func (x *c04Exec) runMan(h *gorm.DB, inTx bool, path string, n *c04Node) error {
 		x.verdict("%s: Begin on a transaction handle succeeded", path)
 	}
 	x.ref.begin()
+	x.w.tags.mu.Lock()
+	x.txOrd = x.w.tags.nBegun
+	x.w.tags.mu.Unlock()
+	defer func() { x.txOrd = 0; x.opInTx = inTx }()
 	defer func() {
 		if r := recover(); r != nil {
 			tx.Rollback()
@@ -726,6 +829,7 @@ type c04Obs struct {
 	Open   int64         `json:"open"`
 	InUse  int           `json:"inuse"`
 	Trace  []string      `json:"trace"`
+	TxOf   []int         `json:"txof"`
 	Reads  [][]int64     `json:"reads"`
 	Stale  bool          `json:"stale"`
 	exec   *c04Exec
@@ -800,6 +904,10 @@ func c04Run(w *c04World, initial []int64, body []*c04Node, mask []int, allowRb b
 	if o.Trace == nil {
 		o.Trace = []string{}
 	}
+	o.TxOf = x.txof
+	if o.TxOf == nil {
+		o.TxOf = []int{}
+	}
 	o.Reads = x.reads
 	if o.Reads == nil {
 		o.Reads = [][]int64{}
@@ -813,6 +921,115 @@ func c04Run(w *c04World, initial []int64, body []*c04Node, mask []int, allowRb b
 		x.verdict("leak: %d driver transaction(s) open, %d connection(s) in use after the program", o.Open, o.InUse)
 	}
 	return o
+}
+
+func c04Has(xs []int64, v int64) bool {
+	for _, x := range xs {
+		if x == v {
+			return true
+		}
+	}
+	return false
+}
+
+// ---------------------------------------------------------------- derived handles
+
+type c04CtxKey struct{}
+
+// single-use derivations return a clone = 0 handle (gorm: "do not reuse"): exactly one operation is issued on them
+var c04SingleUse = map[string]bool{
+	"chain:Model": true, "chain:Table": true, "chain:Set": true, "initialized:Session": true, "chain:Select": true, "where:Ne": true,
+}
+
+// all derivation kinds by class (the class is what Model/Tx.lean `Derive` distinguishes)
+var c04DeriveKinds = []string{
+	"keep:Session", "keep:SkipHooks", "keep:Context", "keep:Logger", "keep:NowFunc", "keep:QueryFields", "keep:CreateBatchSize",
+	"keep:AllowGlobalUpdate", "keep:FullSaveAssociations", "keep:PropagateUnscoped", "keep:DryRunFalse", "initialized:Session",
+	"keep:WithContext", "debug:Debug", "keep:All", "chain:Model", "chain:Table", "chain:Set", "chain:Select",
+	"prep:Session", "prep:Context", "prep:SkipHooks", "prep:All",
+	"newdb:Session", "newdb:Context",
+	"skiptx:Session", "disnested:Session",
+	"where:Ne",
+}
+
+func c04Derive(h *gorm.DB, kind string, arg int64) *gorm.DB {
+	ctx := context.WithValue(context.Background(), c04CtxKey{}, kind)
+	switch kind {
+	case "keep:Session":
+		return h.Session(&gorm.Session{})
+	case "keep:SkipHooks":
+		return h.Session(&gorm.Session{SkipHooks: true})
+	case "keep:Context":
+		return h.Session(&gorm.Session{Context: ctx})
+	case "keep:Logger":
+		return h.Session(&gorm.Session{Logger: logger.Discard})
+	case "keep:NowFunc":
+		return h.Session(&gorm.Session{NowFunc: fixedNowFunc})
+	case "keep:QueryFields":
+		return h.Session(&gorm.Session{QueryFields: true})
+	case "keep:CreateBatchSize":
+		return h.Session(&gorm.Session{CreateBatchSize: 7})
+	case "keep:AllowGlobalUpdate":
+		return h.Session(&gorm.Session{AllowGlobalUpdate: true})
+	case "keep:FullSaveAssociations":
+		return h.Session(&gorm.Session{FullSaveAssociations: true})
+	case "keep:PropagateUnscoped":
+		return h.Session(&gorm.Session{PropagateUnscoped: true})
+	case "keep:DryRunFalse":
+		return h.Session(&gorm.Session{DryRun: false})
+	case "initialized:Session":
+		return h.Session(&gorm.Session{Initialized: true})
+	case "keep:WithContext":
+		return h.WithContext(ctx)
+	case "debug:Debug":
+		return h.Debug()
+	case "keep:All":
+		return h.Session(&gorm.Session{SkipHooks: true, Context: ctx, Logger: logger.Discard, NowFunc: fixedNowFunc, QueryFields: true,
+			CreateBatchSize: 7, AllowGlobalUpdate: true, FullSaveAssociations: true, PropagateUnscoped: true})
+	case "chain:Model":
+		return h.Model(&TxItem{})
+	case "chain:Table":
+		return h.Table("tx_items")
+	case "chain:Set":
+		return h.Set("c04:key", arg)
+	case "chain:Select":
+		return h.Select("*")
+	case "prep:Session":
+		return h.Session(&gorm.Session{PrepareStmt: true})
+	case "prep:Context":
+		return h.Session(&gorm.Session{PrepareStmt: true, Context: ctx})
+	case "prep:SkipHooks":
+		return h.Session(&gorm.Session{PrepareStmt: true, SkipHooks: true})
+	case "prep:All":
+		return h.Session(&gorm.Session{PrepareStmt: true, SkipHooks: true, Context: ctx, Logger: logger.Discard, QueryFields: true, AllowGlobalUpdate: true})
+	case "newdb:Session":
+		return h.Session(&gorm.Session{NewDB: true})
+	case "newdb:Context":
+		return h.Session(&gorm.Session{NewDB: true, Context: ctx})
+	case "skiptx:Session":
+		return h.Session(&gorm.Session{SkipDefaultTransaction: true})
+	case "disnested:Session":
+		return h.Session(&gorm.Session{DisableNestedTransaction: true})
+	case "where:Ne":
+		return h.Where("id <> ?", arg)
+	}
+	panic("bad derive kind " + kind)
+}
+
+// runDv: user code derives a handle and keeps working through it; for the PROPERTY the derived handle is the same
+// transaction (or the same pool) as the handle it came from
+func (x *c04Exec) runDv(h *gorm.DB, inTx bool, path string, n *c04Node) error {
+	x.use(h)
+	saved, savedDis := x.conds, x.disL
+	defer func() { x.conds, x.disL = saved, savedDis }()
+	switch {
+	case strings.HasPrefix(n.Kind, "disnested:"):
+		x.disL = true
+	case strings.HasPrefix(n.Kind, "where:"):
+		x.conds = append(append([]int64{}, x.conds...), n.ID)
+	}
+	h2 := c04Derive(h, n.Kind, n.ID)
+	return x.body(h2, inTx, path, n.Body)
 }
 
 func sortedInts(m map[int64]bool) []int64 {
